@@ -5,7 +5,12 @@ usage: tools/run_seeded.py [id ...]"""
 import glob, json, os, re, subprocess, sys, time
 here = os.path.dirname(os.path.dirname(os.path.abspath(__file__)))
 EXTRA = {'C03-B': ['C17'], 'C05-B': ['C02', 'C17'], 'C16-B': ['C19'], 'C11-B': ['C13'], 'C02-B': ['C15'],
-         'C11-C': ['C17'], 'C10-C': ['C13', 'C18'], 'C03-C': ['C18'], 'C01-D': ['C05', 'C17']}
+         'C11-C': ['C17'], 'C10-C': ['C13', 'C18'], 'C03-C': ['C18'], 'C01-D': ['C05', 'C17'], 'C09-F': ['C18'], 'C15-E': ['C16'],
+         'C11-F': ['C17'], 'C17-E': ['C03']}
+# changes whose demonstration no longer fails on the repaired tree: the defect they relied on next to their own edit was fixed
+ABSORBED = {'C04-F': 'F22 (add28c3): the marker is saved before the payload of a skipped BigMessage is discarded',
+            'C16-C': 'F23 (5fa9fa0): abandoned records are deleted, so no leftovers count against the limits of a later adoption',
+            'C16-F': 'F23 (5fa9fa0): abandoned records are deleted, so no stale storage sequence numbers remain'}
 ids = sys.argv[1:] or sorted(os.path.basename(d) for d in glob.glob(os.path.join(here, 'seeded', 'C*-*')))
 out = os.path.join(here, 'seeded', 'RESULTS.json')
 res = json.load(open(out)) if os.path.exists(out) else {}
@@ -35,6 +40,8 @@ for i in ids:
     res[i] = entry
     json.dump(res, open(out, 'w'), indent=1)
     notes = open(os.path.join(d, 'notes.md')).read() if os.path.exists(os.path.join(d, 'notes.md')) else ''
+    if i in ABSORBED:
+        entry['absorbed_by_fix'] = ABSORBED[i]
     meta = dict(id=i, breaks_property=prop, origin='fresh sub-agent given only the property text and its own worktree of /repo',
                 needs_to_manifest=notes[:1500], confirmed_by='tools/seeded.sh: patch applied to a private copy of /repo; go build, go vet and the '
                 'repository tests green twice; demonstration fails 3/3 with the change and passes 3/3 without', result=entry)
